@@ -38,16 +38,29 @@ class Ctx:
             self.samples.append({"rule": rid, "instance": key, "ok": bool(ok), "detail": sample})
         return bool(ok)
 
-    def lost(self, rid, what):
-        """an anchor the rule needs is missing or has an unrecognised shape: fail closed"""
+    def lost(self, rid, what, missing=False):
+        """the rule cannot interpret what it finds.
+        missing=True  - a function / type / constant the property is anchored in no longer exists under its name:
+                        fail closed (a violation), the check cannot say anything about the property any more.
+        missing=False - the anchor exists but is written in an idiom the rule does not recognise (helper extracted,
+                        loop replaced by an iterator chain, match replaced by an if-chain ...): UNDECIDED. It is
+                        reported (stdout line, evidence) but it is not an alarm: a behaviour-preserving rewrite must
+                        not fail the check, and the rule never guesses."""
         if rid not in self.rules:
             self.rule(rid, "(anchor)")
-        self.ob(rid, "anchor-lost:" + what, False, "anchor lost: %s (function renamed or idiom rewritten beyond what the rule recognises; the rule cannot decide)" % what)
+        if missing:
+            self.ob(rid, "anchor-lost:" + what, False, "anchor lost: %s (the function / item the property is anchored in is gone or renamed; the check cannot decide anything about it)" % what)
+            return
+        r = self.rules[rid]
+        r["instances"] += 1
+        r["undecided"] = r.get("undecided", 0) + 1
+        self.obligations.append({"rule": rid, "key": "%s|undecided:%s" % (rid, what), "ok": True, "undecided": True,
+                                 "msg": "undecided: %s (idiom not recognised by this rule; no verdict, no alarm)" % what, "where": ""})
 
     def fn(self, rid, key):
         f = self.prog.fn(key)
         if f is None:
-            self.lost(rid, key)
+            self.lost(rid, key, missing=True)
             raise AnchorLost(key)
         return f
 
@@ -56,6 +69,8 @@ class Ctx:
 
     def finish_floors(self):
         for rid, r in self.rules.items():
+            if r.get("undecided"):
+                continue        # the rule met an idiom it cannot read: its instance count says nothing
             if r["instances"] < r["floor"]:
                 self.obligations.append({"rule": rid, "key": "%s|floor" % rid, "ok": False,
                                          "msg": "rule matched %d instances, floor is %d (a rule that matches nothing passes vacuously)" % (r["instances"], r["floor"]),
@@ -89,14 +104,18 @@ def conclude(ctx, level, explanation, extract_meta, trusted_base=None, exhaustiv
     for fn in os.listdir(rp_dir):
         if fn.startswith(ctx.pid + "-"):
             os.remove(os.path.join(rp_dir, fn))
+    undecided = [o for o in ctx.obligations if o.get("undecided")]
     n_ob = len(ctx.obligations)
-    n_ok = len([o for o in ctx.obligations if o["ok"]])
+    n_ok = len([o for o in ctx.obligations if o["ok"] and not o.get("undecided")])
     cov = {
         "explanation": explanation,
         "obligations": n_ob,
         "discharged": n_ok,
         "rules": {rid: {"text": r["text"], "instances": r["instances"], "violations": r["violations"], "floor": r["floor"]}
                   for rid, r in ctx.rules.items()},
+        "rules_undecided": {rid: r.get("undecided") for rid, r in ctx.rules.items() if r.get("undecided")},
+        "undecided": len(undecided),
+        "undecided_keys": [o["key"] for o in undecided][:40],
         "samples": ctx.samples[:24] or [{"note": "no instance"}],
         "analysed": extract_meta,
         "notes": ctx.notes,
@@ -110,6 +129,8 @@ def conclude(ctx, level, explanation, extract_meta, trusted_base=None, exhaustiv
         cov["exhaustive"] = exhaustive
     if listed:
         cov["known_findings_reported"] = [v["key"] for v in listed]
+    for o in undecided:
+        print("UNDECIDED: property=%s %s" % (ctx.pid, o["key"]))
     if level == "proof" and n_ok != n_ob:
         # a proof-level claim needs every obligation discharged; report honestly as 'other'
         level = "other"
@@ -135,6 +156,6 @@ def conclude(ctx, level, explanation, extract_meta, trusted_base=None, exhaustiv
                        "rule_text": ctx.rules.get(v["rule"], {}).get("text", "")}, f, indent=1)
         print("  %s: %s\n      at %s\n      rule %s: %s" % (v["key"], v["msg"], v["where"], v["rule"], ctx.rules.get(v["rule"], {}).get("text", "")))
         print("VIOLATION property=%s replay=%s" % (ctx.pid, rp))
-    print("%s %s: %d obligations, %d discharged, %d new violations, %d known findings (%.1fs)" % (
-        ctx.pid, ctx.tier, n_ob, n_ok, len(new), len(listed), ev["wall_s"]))
+    print("%s %s: %d obligations, %d discharged, %d undecided, %d new violations, %d known findings (%.1fs)" % (
+        ctx.pid, ctx.tier, n_ob, n_ok, len(undecided), len(new), len(listed), ev["wall_s"]))
     return 1 if new else 0
